@@ -84,6 +84,7 @@ type Dir struct {
 	Clients []*dClient
 	Ops     []dOp
 	Meddle  bool             // C15: a second task calls Set* and getters while operations are in flight
+	Stall   bool             // C20, plain listener: one more client asks for every user and never reads a byte of the answer
 	sibling *tls.Certificate // C18: client certificate of another GetTLSConfig(WithMTLS) call
 
 	// model (scheduler only)
@@ -95,6 +96,7 @@ type Dir struct {
 	faults   int
 	dead     map[int]bool
 	started  bool
+	stalled  bool
 	failed   string
 	d        *testdirectory.Directory
 	stopped  bool
@@ -225,6 +227,7 @@ func DrawDir(prop, tier string, ch *Chooser, lean bool, s *Sim) *Dir {
 		}
 	}
 	d.Meddle = prop == "C15"
+	d.Stall = prop == "C20" && d.NoTLS && ch.Choose(5) == 4
 	for i := 0; i < nOps; i++ {
 		op := dOp{Client: ch.Choose(nClients)}
 		switch ch.Choose(12) {
@@ -599,6 +602,22 @@ func (d *Dir) Gate(p *simrt.Parked) bool { return true }
 // its search is being answered (read-only, so the reference store is not
 // affected); afterwards that client is dead and the others must still be served.
 func (d *Dir) Actions(s *Sim, acts []Action) []Action {
+	if d.Stall && d.started && !d.stalled && s.W.FindListener(389) != nil {
+		acts = append(acts, Action{Class: clsFault, Key: "fault-stalled-reader", Weight: s.WFault, Do: func() {
+			d.stalled = true
+			ep := s.W.Dial(389, true)
+			if ep == nil {
+				return
+			}
+			s.Logf("FAULT a client searches for every user and never reads the answer")
+			s.Fault("F5-client-stops-reading")
+			ep.Peer.SetOutWindow(7)
+			rec := &ReqRec{Op: "search", MsgID: 1, BindVersion: 3, DN: dirUserDN, Scope: 2, Filter: "(cn=*)"}
+			if t, err := rec.TLV(); err == nil {
+				ep.SendRaw(t.Enc())
+			}
+		}})
+	}
 	if d.faults <= 0 || d.inflight < 0 || d.inflight >= len(d.Ops) || d.Prop == "C19" || d.Prop == "C18" {
 		return acts
 	}
